@@ -20,7 +20,13 @@ while IFS=$'\t' read -r id prop file expr expect; do
   sed -i -E "$expr" "$scratch/wt/$file"
   after=$(md5sum "$scratch/wt/$file" | cut -d' ' -f1)
   if [ "$before" = "$after" ]; then echo "MUTANT-NOT-APPLIED $id"; fail=$((fail+1)); continue; fi
-  out=$("$here/bin/govc" -prop "$prop" -repo "$scratch/wt" -verif "$here" -no-evidence 2>&1)
+  fn=""; case "$expect" in *"#"*) fn="${expect%%#*}";; esac
+  if [ -n "$fn" ] && [ -z "${FULL:-}" ]; then
+    # the expected obligation names the function: verify only that function (FULL=1 verifies the whole property)
+    out=$("$here/bin/govc" -prop "$prop" -repo "$scratch/wt" -verif "$here" -no-evidence -no-retry -func "$fn" 2>&1)
+  else
+    out=$("$here/bin/govc" -prop "$prop" -repo "$scratch/wt" -verif "$here" -no-evidence -no-retry 2>&1)
+  fi
   if echo "$out" | grep -q "BUILD-ERROR"; then echo "MUTANT-DOES-NOT-COMPILE $id"; fail=$((fail+1));
   elif echo "$out" | grep "^VIOLATION" | grep -qF "$expect"; then echo "caught   $id ($prop: $expect)"; pass=$((pass+1));
   else echo "MISSED   $id ($prop: expected $expect)"; echo "$out" | grep "^VIOLATION\|^property" | cut -c1-240 | head -5; fail=$((fail+1)); fi
